@@ -116,6 +116,51 @@ Theorem normalize_round_exact :
 Proof. exact C15Proofs.normalize_round_exact_lemma. Qed.
 Print Assumptions normalize_round_exact.
 
+(* (1c) one fork, one entry. Whatever the order of fork completions (SetWorker
+   inserts), worker connections (WorkerForked re-keying), failures, kills,
+   deletions and errors: the tracked workers never outnumber the completions
+   so far ... *)
+Theorem tracked_le_completions :
+  forall fx c evs, (tracked (run fx c evs) <= N.of_nat (length (insert_keys evs)))%N.
+Proof. exact C15Proofs.tracked_le_completions_lemma. Qed.
+Print Assumptions tracked_le_completions.
+
+(* ... and no two tracked entries stem from the same fork, as long as every
+   fork's completion is inserted once (ForkingWorkerState queues one SetWorker
+   per started fork, bootstrap addresses are not reused) *)
+Theorem fork_tracked_once :
+  forall fx c evs, NoDup (insert_keys evs) -> NoDup (forks_of (run fx c evs)).
+Proof. exact C15Proofs.fork_tracked_once_lemma. Qed.
+Print Assumptions fork_tracked_once.
+
+(* the re-keying never adds an entry; when the boot entry is missing it changes
+   nothing at all *)
+Theorem rekey_never_grows :
+  forall fx c s b a, rekey_ok (tracked s) (tracked (fst (step fx c s (ERekey b a)))) = true.
+Proof. exact C15Proofs.rekey_never_grows_lemma. Qed.
+Print Assumptions rekey_never_grows.
+
+Theorem rekey_missing_noop :
+  forall fx c s b a, wfind b (s_workers s) = None -> step fx c s (ERekey b a) = (s, true).
+Proof. exact C15Proofs.rekey_missing_noop_lemma. Qed.
+Print Assumptions rekey_missing_noop.
+
+(* the worker connects BEFORE its fork completes (the TestFork seam returns
+   late): WorkerForked finds no boot entry, ErrWorkerMissing names an address
+   nobody tracks, the completion inserts the boot entry: one entry more, never
+   connected, nobody more is ready *)
+Theorem connect_before_completion :
+  forall c s b a,
+    wfind b (s_workers s) = None -> wfind a (s_workers s) = None ->
+    let s' := run_from no_fixes c s [ERekey b a; EErr a true; ESetIns b] in
+    tracked s' = (tracked s + 1)%N /\
+    wfind b (s_workers s') = Some (fresh_info_of b) /\
+    wfind a (s_workers s') = (if Nat.eqb a b then Some (fresh_info_of b) else None) /\
+    ready s' = ready s /\
+    s_inflight s' = rem b (s_inflight s).
+Proof. exact C15Proofs.connect_before_completion_lemma. Qed.
+Print Assumptions connect_before_completion.
+
 (* (2) "never forks while at Max": a fork request / start that is accepted saw
    tracked < Max *)
 Theorem never_forks_at_max :
@@ -243,3 +288,20 @@ Example normalize_round_nonvacuous :
   bound_ok c0 (tracked (run no_fixes c0 (up ++ ENormalize :: burst_keys [3; 4]))) = false.
 Proof. exact C15Proofs.normalize_round_nonvacuous_lemma. Qed.
 Print Assumptions normalize_round_nonvacuous.
+
+Example late_seam_nonvacuous :
+  let c := {| c_min := 1; c_max := 1; c_errkill := 3; c_warm := 0 |} in
+  let late := [ENormalize; EForkReq; EForking 1; ERekey 1 11; EErr 11 true; EErrClear; ESetIns 1] in
+  let prompt := [ENormalize; EForkReq; EForking 1; ESetIns 1; ERekey 1 11] in
+  tracked (run no_fixes c prompt) = 1%N /\ ready (run no_fixes c prompt) = 1%N /\
+  forks_of (run no_fixes c prompt) = [1] /\
+  tracked (run no_fixes c late) = 1%N /\ ready (run no_fixes c late) = 0%N /\
+  forks_of (run no_fixes c late) = [1] /\
+  wfind 11 (s_workers (run no_fixes c late)) = None /\
+  step no_fixes c (run no_fixes c late) ETryReady = (run no_fixes c late, false) /\
+  step no_fixes c (run no_fixes c late) EForkReq = (run no_fixes c late, false) /\
+  bound_ok c (tracked (run no_fixes c late)) = true /\
+  bound_partial_obs c 2 (run no_fixes c late) = false /\
+  rekey_ok 0 1 = false.
+Proof. exact C15Proofs.late_seam_nonvacuous_lemma. Qed.
+Print Assumptions late_seam_nonvacuous.
